@@ -31,6 +31,45 @@ TABLE = {
     ),
 }
 
+TABLE.update({
+    "C03": (
+        True,
+        MC,
+        "explicit-state BFS to fix-point over operation histories executed "
+        "on the real objects, forest reference model, heap-fingerprint dedup",
+        "All histories (any length: the search reaches a fix-point over the "
+        "pool) of parent-attribute assignments, set add/discard/remove/pop/"
+        "clear/update/|=/-=/^=/&=, module-list append/insert/extend/+=/del/"
+        "slice and extended-slice assignment/pop/remove/clear/reverse, "
+        "constructors with parent or children arguments and save+load, over a "
+        "pool of 2 IRs, 2 modules and one node of every other kind (thorough: "
+        "two wider pools), starting from detached nodes, a linked chain, a "
+        "loaded file and two loads of one file; in every state every IR's "
+        "get_by_uuid is compared, for every UUID of the pool and a foreign "
+        "one, with the node reachable by public iteration.",
+        "Trusted: Forest model and the fingerprint abstraction (LazyInterval"
+        "Tree instances skipped). Pools have at most 2 siblings per container;"
+        " the two-loads scenario is depth-bounded, not a fix-point.",
+        "3/C03",
+    ),
+    "C04": (
+        True,
+        MC,
+        "explicit-state BFS to fix-point over operation histories executed "
+        "on the real objects, forest reference model, heap-fingerprint dedup",
+        "Same exploration as C03 with the containment oracle: after every "
+        "transition the structure read from both ends (parent attributes and "
+        "collections) must agree, equal the model forest (a move removes from "
+        "the previous owner, nothing appears twice), leave every attribute of "
+        "every node unchanged, and all derived accessors (.ir/.module/"
+        ".section, aggregate iterators) must equal the model's comprehension;"
+        " attribute edits must touch only their node; plus an enumerated "
+        "isolation sub-check for default and shared constructor arguments.",
+        "Trusted: Forest model; fingerprint abstraction as for C03.",
+        "3/C04",
+    ),
+})
+
 PENDING = [
     "C01", "C02", "C03", "C04", "C05", "C06", "C07", "C08", "C09", "C10",
     "C11", "C12", "C13", "C14", "C16", "C17", "C18", "C19",
